@@ -64,6 +64,7 @@ type Contract struct {
 	OSCalls      []string
 	OSCallsLabel string
 	HasOSCalls   bool
+	CallbackParam string
 	Interf       bool // interference fs
 }
 
@@ -514,6 +515,11 @@ func (S *Specs) parseLines(lines []rawLine, ctx *PkgCtx, pkgShort string, extern
 				cur.OSCalls = append(cur.OSCalls, strings.Fields(rest)...)
 				cur.HasOSCalls = true
 			}
+		case "calls-back":
+			// extern iterator: the named parameter is a function the callee calls zero or more times
+			if cur != nil {
+				cur.CallbackParam = strings.TrimSpace(rest)
+			}
 		case "nooverflow":
 			if cur != nil {
 				cur.NoOverflow = true
@@ -814,7 +820,7 @@ func resolveTypeExpr(ctx *PkgCtx, e ast.Expr) (types.Type, error) {
 }
 
 var directiveWords = map[string]bool{"import": true, "package": true, "func": true, "extern": true, "verify": true, "props": true, "trusted": true,
-	"pure": true, "ghost": true, "opaque": true, "nooverflow": true, "os-calls-only": true, "interference": true, "requires": true, "ensures": true, "ensures-local": true, "ensures-ghost": true, "modifies": true,
+	"pure": true, "ghost": true, "opaque": true, "nooverflow": true, "calls-back": true, "os-calls-only": true, "interference": true, "requires": true, "ensures": true, "ensures-local": true, "ensures-ghost": true, "modifies": true,
 	"loop": true, "callback": true, "at": true, "lemma": true, "global": true, "axiom": true}
 
 func startsWithDirective(body string) bool {
